@@ -303,10 +303,9 @@ impl InnerField {
 
         // check boundary
         if len >= 4 && payload.buf[0] == b'\r' {
+            // the delimiter is CRLF "--" boundary; a bare CR is content
             let b_len = if payload.buf.starts_with(b"\r\n") && &payload.buf[2..4] == b"--" {
                 Some(4)
-            } else if &payload.buf[1..3] == b"--" {
-                Some(3)
             } else {
                 None
             };
@@ -344,10 +343,8 @@ impl InnerField {
                     }
                 } else {
                     // check boundary
-                    if (&payload.buf[cur..cur + 2] == b"\r\n"
-                        && &payload.buf[cur + 2..cur + 4] == b"--")
-                        || (&payload.buf[cur..=cur] == b"\r"
-                            && &payload.buf[cur + 1..cur + 3] == b"--")
+                    if &payload.buf[cur..cur + 2] == b"\r\n"
+                        && &payload.buf[cur + 2..cur + 4] == b"--"
                     {
                         if cur != 0 {
                             // return buffer
